@@ -3,7 +3,7 @@
    Server::handle_message. One record per request; the response octets are decoded
    by Wire!DecodeMessage and judged here. Every failed conjunct is attributed to
    the property that states it, so a check for property X reports only X. *)
-EXTENDS Server, Json, IOUtils
+EXTENDS Server, Writer, Json, IOUtils
 
 Rec == ndJsonDeserialize(IOEnv.TRACE)
 
@@ -90,6 +90,7 @@ RespFails(r, e) ==
       slipped == cfg.rrl /\ r.transport = "udp" /\ opcode = 0 /\ tc /\ nodata
   IN
      Chk("C02", WellFormed(rs))
+     \cup Chk("C13", PointersOk(r.resp, {}))
      \cup Chk("C04", Len(r.resp) <= e.limit /\ (r.transport = "tcp" => ~tc))
      \cup Chk("C03", /\ rs.id = U16(rq, 0)
                      /\ Bit(rs.flags, 32768) = 1
